@@ -200,7 +200,9 @@ func runC08(rc *RunCtx) {
 		if hasPath {
 			if path == 100 {
 				ww.StepSend()
-				ww.StepRestore(false)
+				ww.StepRestore(i%2 == 0)
+				ww.StepMint()
+				ww.StepMelt()
 			} else {
 				// make sure there is something to receive / reclaim / resolve
 				if wwKinds[path] == "receive" || wwKinds[path] == "reclaim" {
@@ -211,8 +213,9 @@ func runC08(rc *RunCtx) {
 				}
 				ww.Step(path)
 			}
-		} else if T.Chance("restore", 1, 10) {
-			ww.StepRestore(false)
+		} else if T.Chance("restore", 1, 8) {
+			// sometimes the restored wallet (whose proofs carry no DLEQ) takes over and continues
+			ww.StepRestore(T.Chance("restore.replace", 1, 2))
 		} else {
 			ww.Step(T.Pick("step.kind", weights...))
 		}
